@@ -11,6 +11,8 @@
   All theorems hold for every tree and every node, without bounds.
 -/
 import XotModel.Lemmas.Axes
+import XotModel.Lemmas.ArenaExamples
+import XotModel.Lemmas.ArenaTraverse
 
 namespace XotModel.Props
 open XotModel XotModel.Axes
@@ -358,5 +360,79 @@ example : edgeWalk (Edge.next exTree) 20 (.start [0, 2]) =
 example : documentElement exTree [] = .ok [0] ∧ topElement exTree [0, 2, 0] = .ok [0] := by decide
 example : reverseChildren exTree [0] = [[0, 4], [0, 3], [0, 2]] := by decide
 example : topElement (.node .document [.node (.comment []) []]) [] = .ok [] := by decide
+
+/-! =====================================================================================
+  ### indextree's iterators on the real data structure (pointer level, `Model/ArenaIter.lean`)
+
+  The theorems above take indextree's iterators "by contract" (`children`, `ancestors`, … = the
+  obvious lists).  For a well-formed arena (`Arena.Rep a g`, see `Props/C04`) the pointer walks of
+  `traverse.rs` are proved to yield exactly those lists, within their limit, without panic.
+  `reverse_traverse` is modelled and compared with the crate on every run (suite `arena`), not
+  proved.
+  ===================================================================================== -/
+
+/-- `children`, `reverse_children` (also what xot's own `reverse_children` walks), `ancestors`
+    (the node first, the root last), `following_siblings` / `preceding_siblings` (the node first) of a live node are the
+    list-level children / reversed children / parent chain / rest of the sibling list, as current
+    ids; `count` (resp. any bound on the length) suffices as limit; every id yielded is live. -/
+theorem C07_arena_iterators (a : Arena) (g : Arena.Shape) (r : Arena.Rep a g) (p : Nat) (hp : Arena.Live a p)
+    (limit : Nat) (hlim : a.count ≤ limit) :
+    Arena.children a (a.idAt p) limit = .done a ((g.kids p).map a.idAt) ∧
+    Arena.reverseChildren a (a.idAt p) limit = .done a ((g.kids p).reverse.map a.idAt) ∧
+    (∃ l, Arena.UpChain g.par p l ∧ Arena.ancestors a (a.idAt p) limit = .done a (l.map a.idAt) ∧
+      ∀ q, q ∈ l ↔ Arena.Reach g.par p q) ∧
+    (∀ q L R, g.par p = some q → g.kids q = L ++ p :: R →
+      Arena.followingSiblings a (a.idAt p) limit = .done a ((p :: R).map a.idAt)) ∧
+    (g.par p = none → 1 ≤ limit → Arena.followingSiblings a (a.idAt p) limit = .done a [a.idAt p]) ∧
+    (∀ q L R, g.par p = some q → g.kids q = L ++ p :: R →
+      Arena.precedingSiblings a (a.idAt p) limit = .done a ((p :: L.reverse).map a.idAt)) ∧
+    (∀ c, c ∈ g.kids p → Arena.LiveId a (a.idAt c)) := by
+  have hk : (g.kids p).length ≤ limit := Nat.le_trans (r.kids_length_le p) hlim
+  refine ⟨r.children_eq p hp limit hk, r.reverseChildren_eq p hp limit hk, ?_, ?_, ?_, ?_, ?_⟩
+  · obtain ⟨l, hl, hlen⟩ := r.upChain p hp
+    exact ⟨l, hl, r.ancestors_chain p l hl hp limit (Nat.le_trans hlen hlim), fun q => hl.mem_iff q⟩
+  · intro q L R hq hkq
+    refine r.followingSiblings_eq p q L R hp hq hkq limit ?_
+    have h1 := r.kids_length_le q
+    rw [hkq] at h1
+    simp at h1 ⊢
+    have : a.count = a.nodes.length := rfl
+    omega
+  · intro hq h1
+    exact r.followingSiblings_root p hp hq limit h1
+  · intro q L R hq hkq
+    refine r.precedingSiblings_eq p q L R hp hq hkq limit ?_
+    have h1 := r.kids_length_le q
+    rw [hkq] at h1
+    simp at h1 ⊢
+    have : a.count = a.nodes.length := rfl
+    omega
+  · intro c hc
+    exact Arena.LiveId.idAt (r.kidsLive p c hc).2.1
+
+/-- `traverse` from a live node yields exactly the edges of its subtree in document order
+    (`Arena.EdgesOf`: `Start(c)`, the edges of the children's subtrees in order, `End(c)`), and
+    `descendants` the nodes of its `Start` edges (the subtree in document order), whenever the limit
+    is at least the number of edges; no panic. -/
+theorem C07_arena_traverse (a : Arena) (g : Arena.Shape) (r : Arena.Rep a g) (c : Nat) (hc : Arena.Live a c) :
+    ∃ l, Arena.EdgesOf g c l ∧ ∀ limit, l.length ≤ limit →
+      Arena.traverse a (a.idAt c) limit = .done a (l.map (Arena.toEdge a)) ∧
+      Arena.descendants a (a.idAt c) limit = .done a ((l.filter (·.1)).map (fun e => a.idAt e.2)) := by
+  obtain ⟨l, hl⟩ := r.edges_exists c hc
+  exact ⟨l, hl, fun limit hlim => ⟨r.traverse_eq hl hc limit hlim, r.descendants_eq hl hc limit hlim⟩⟩
+
+/-- Non-vacuity on closed arenas (`sampleC`: `1:0 [4:0, 3:0]`, slot 2 reused as `2:1`): the
+    iterators, and the defect of `Children::next_back` in 4.7.2 (`children().rev()` keeps yielding
+    the last child — cut off by the limit here; xot does not call it). -/
+example : Arena.children Arena.sampleC ⟨1, 0⟩ 4 = .done Arena.sampleC [⟨4, 0⟩, ⟨3, 0⟩] ∧
+    Arena.reverseChildren Arena.sampleC ⟨1, 0⟩ 4 = .done Arena.sampleC [⟨3, 0⟩, ⟨4, 0⟩] ∧
+    Arena.ancestors Arena.sampleB ⟨4, 0⟩ 4 = .done Arena.sampleB [⟨4, 0⟩, ⟨2, 0⟩, ⟨1, 0⟩] ∧
+    Arena.followingSiblings Arena.sampleC ⟨4, 0⟩ 4 = .done Arena.sampleC [⟨4, 0⟩, ⟨3, 0⟩] ∧
+    Arena.precedingSiblings Arena.sampleC ⟨3, 0⟩ 4 = .done Arena.sampleC [⟨3, 0⟩, ⟨4, 0⟩] ∧
+    Arena.descendants Arena.sampleB ⟨1, 0⟩ 9 = .done Arena.sampleB [⟨1, 0⟩, ⟨2, 0⟩, ⟨4, 0⟩, ⟨3, 0⟩] ∧
+    Arena.traverse Arena.sampleB ⟨2, 0⟩ 9 =
+      .done Arena.sampleB [.start ⟨2, 0⟩, .start ⟨4, 0⟩, .end ⟨4, 0⟩, .end ⟨2, 0⟩] ∧
+    Arena.childrenRev Arena.sampleC ⟨1, 0⟩ 5 = .done Arena.sampleC [⟨3, 0⟩, ⟨3, 0⟩, ⟨3, 0⟩, ⟨3, 0⟩, ⟨3, 0⟩] := by
+  decide
 
 end XotModel.Props
